@@ -95,6 +95,7 @@ func symbols() *sl.Symbols {
 		sl.Op{Name: "ins3(v1)", Kind: "ins", Ids: []int{3}, Docs: []sl.Doc{docB(1)}},
 		sl.Op{Name: "upd1(v1)", Kind: "upd", Ids: []int{1}, Docs: []sl.Doc{docB(1)}},
 		sl.Op{Name: "upd1,2(v2)", Kind: "upd", Ids: []int{1, 2}, Docs: []sl.Doc{docB(2), docB(2)}},
+		sl.Op{Name: "upd1(v1),3(v0) swap", Kind: "upd", Ids: []int{1, 3}, Docs: []sl.Doc{docB(1), docB(0)}},
 		sl.Op{Name: "upd1(remove)", Kind: "upd", Ids: []int{1}, Docs: []sl.Doc{{"s": "_delete", "si": "_delete", "tags": "_delete", "tagsi": "_delete", "a": "_delete", "f": "_delete", "n": "_delete"}}},
 		sl.Op{Name: "upd1(add v0)", Kind: "upd", Ids: []int{1}, Docs: []sl.Doc{docB(0)}},
 		sl.Op{Name: "upd2(n:{x})", Kind: "upd", Ids: []int{2}, Docs: []sl.Doc{{"n": sl.Doc{"x": int64(7)}, "tags": []string{}}}},
